@@ -100,6 +100,35 @@ def DecOutgoing_guard_1 (supply_OutgoingSupply : Coin) (coin : Coin) : Option (B
   let t1 ← Int_Sub supply_OutgoingSupply.amount coin.amount
   some (Int_IsNegative t1)
 
+/-- rejects when true: `len(amount) != 1` -/
+def createHTLT_guard_1 (read_len_amount : Int) : Option (Bool) := do
+  some (read_len_amount != (1 : Int))
+
+/-- rejects when true: `amount[0].Amount.LT(asset.MinSwapAmount) || amount[0].Amount.GT(asset.MaxSwapAmount)` -/
+def createHTLT_guard_2 (amount_0 : Coin) (asset_MinSwapAmount : Int) (asset_MaxSwapAmount : Int) : Option (Bool) := do
+  some ((Int_LT amount_0.amount asset_MinSwapAmount) || (Int_GT amount_0.amount asset_MaxSwapAmount))
+
+/-- rejects when true: `timestamp < uint64(pastTimestampLimit) || timestamp >= uint64(futureTimestampLimit)` -/
+def createHTLT_guard_3 (timestamp : Nat) (pastTimestampLimit : Int) (futureTimestampLimit : Int) : Option (Bool) := do
+  some ((decide (timestamp < (U64_ofI64 pastTimestampLimit))) || (decide (timestamp ≥ (U64_ofI64 futureTimestampLimit))))
+
+/-- rejects when true: `to.Equals(deputyAddress)` -/
+def createHTLT_guard_4 (read_to_Equals_deputyAddress : Bool) : Option (Bool) := do
+  some read_to_Equals_deputyAddress
+
+/-- rejects when true: `!to.Equals(deputyAddress)` -/
+def createHTLT_guard_5 (read_to_Equals_deputyAddress : Bool) : Option (Bool) := do
+  some (!read_to_Equals_deputyAddress)
+
+/-- rejects when true: `timeLock < asset.MinBlockLock || timeLock > asset.MaxBlockLock` -/
+def createHTLT_guard_6 (timeLock : Nat) (asset_MinBlockLock : Nat) (asset_MaxBlockLock : Nat) : Option (Bool) := do
+  some ((decide (timeLock < asset_MinBlockLock)) || (decide (timeLock > asset_MaxBlockLock)))
+
+/-- rejects when true: `amount[0].Amount.LT(asset.FixedFee.Add(asset.MinSwapAmount))` -/
+def createHTLT_guard_7 (amount_0 : Coin) (asset_FixedFee : Int) (asset_MinSwapAmount : Int) : Option (Bool) := do
+  let t1 ← Int_Add asset_FixedFee asset_MinSwapAmount
+  some (Int_LT amount_0.amount t1)
+
 def UpdateWindow_newTimeElapsed_1 (supply_TimeElapsed : Int) (timeElapsed : Int) : Option (Int) := do
   some (I64_Add supply_TimeElapsed timeElapsed)
 
@@ -117,6 +146,6 @@ def UpdateWindow_cond_1 (asset_SupplyLimit_TimeLimited : Bool) (newTimeElapsed :
 def untranslated : List String := []
 
 /-- names of the translated definitions -/
-def translated : List String := ["IncCurrent_supplyLimit_1", "IncCurrent_timeBasedSupplyLimit_1", "IncCurrent_supply_TimeLimitedCurrentSupply_1", "IncCurrent_supply_CurrentSupply_1", "IncCurrent_guard_1", "IncCurrent_guard_2", "DecCurrent_supply_CurrentSupply_1", "DecCurrent_guard_1", "IncIncoming_totalSupply_1", "IncIncoming_supplyLimit_1", "IncIncoming_timeLimitedTotalSupply_1", "IncIncoming_timeBasedSupplyLimit_1", "IncIncoming_supply_IncomingSupply_1", "IncIncoming_guard_1", "IncIncoming_guard_2", "DecIncoming_supply_IncomingSupply_1", "DecIncoming_guard_1", "IncOutgoing_supply_OutgoingSupply_1", "IncOutgoing_guard_1", "DecOutgoing_supply_OutgoingSupply_1", "DecOutgoing_guard_1", "UpdateWindow_newTimeElapsed_1", "UpdateWindow_supply_TimeElapsed_1", "UpdateWindow_supply_TimeElapsed_2", "UpdateWindow_cond_1"]
+def translated : List String := ["IncCurrent_supplyLimit_1", "IncCurrent_timeBasedSupplyLimit_1", "IncCurrent_supply_TimeLimitedCurrentSupply_1", "IncCurrent_supply_CurrentSupply_1", "IncCurrent_guard_1", "IncCurrent_guard_2", "DecCurrent_supply_CurrentSupply_1", "DecCurrent_guard_1", "IncIncoming_totalSupply_1", "IncIncoming_supplyLimit_1", "IncIncoming_timeLimitedTotalSupply_1", "IncIncoming_timeBasedSupplyLimit_1", "IncIncoming_supply_IncomingSupply_1", "IncIncoming_guard_1", "IncIncoming_guard_2", "DecIncoming_supply_IncomingSupply_1", "DecIncoming_guard_1", "IncOutgoing_supply_OutgoingSupply_1", "IncOutgoing_guard_1", "DecOutgoing_supply_OutgoingSupply_1", "DecOutgoing_guard_1", "createHTLT_guard_1", "createHTLT_guard_2", "createHTLT_guard_3", "createHTLT_guard_4", "createHTLT_guard_5", "createHTLT_guard_6", "createHTLT_guard_7", "UpdateWindow_newTimeElapsed_1", "UpdateWindow_supply_TimeElapsed_1", "UpdateWindow_supply_TimeElapsed_2", "UpdateWindow_cond_1"]
 
 end Irismod.Gen.PureHtlc
